@@ -236,6 +236,19 @@ func (la *LeapArray) calculateTimeIdx(now uint64) int {
 
 // Values returns all valid (non-expired) buckets between [curBucketEnd-windowInterval, curBucketEnd],
 // where curBucketEnd=curBucketStart+bucketLength.
+// AllBuckets returns every bucket of the array whatever its start time: for a caller that clears what the
+// array holds. (Values leaves out the buckets that start after the current time, which is where the data
+// of a moment ago is after the clock was set back.)
+func (la *LeapArray) AllBuckets() []*BucketWrap {
+	ret := make([]*BucketWrap, 0, la.array.length)
+	for i := 0; i < la.array.length; i++ {
+		if ww := la.array.get(i); ww != nil {
+			ret = append(ret, ww)
+		}
+	}
+	return ret
+}
+
 func (la *LeapArray) Values() []*BucketWrap {
 	return la.valuesWithTime(util.CurrentTimeMillis())
 }
